@@ -204,6 +204,9 @@ func propC17(t *rapid.T, e *Env) {
 	}
 	usedF := make([]bool, len(fromCalls))
 	below := false
+	// sites with a stable address are matched first: they accept exactly one call, the others
+	// (value elements of lists and maps) accept any call with the right suffix and value
+	sort.SliceStable(sites, func(i, j int) bool { return sites[i].addr && !sites[j].addr })
 	for _, s := range sites {
 		found := false
 		for i, c := range fromCalls {
